@@ -229,8 +229,9 @@ def mixed_case(draw):
     sc["f"] = {"m": str(draw(st.sampled_from([3, 6, 10])))}
     if draw(st.booleans()):
         sc["f"]["M"] = str(draw(st.sampled_from([12, 18])))
-    sc["mixed"] = {"main": draw(st.sampled_from(EXTS + [".txt"] + ([] if sc["paired"] else ["stdout"]))), "short": draw(st.sampled_from(EXTS)),
-                   "long": draw(st.sampled_from(EXTS)), "cont": draw(st.sampled_from(OUT_CONT)),
+    sc["mixed"] = {"main": draw(st.sampled_from(EXTS + [".txt"] + ([] if sc["paired"] else ["stdout", "stdout-fasta"]))),
+                   "short": draw(st.sampled_from(EXTS + [".reads"])),
+                   "long": draw(st.sampled_from(EXTS + [".reads"])), "cont": draw(st.sampled_from(OUT_CONT)),
                    "cores": draw(st.sampled_from([1, 2]))}
     return sc
 
@@ -249,6 +250,9 @@ def check_mixed(sc, ctx):
     def run(main_ext, short_ext, long_ext):
         args = list(base)
         outs = {}
+        if main_ext == "stdout-fasta":
+            args.append("--fasta")  # concerns standard output only
+            main_ext = "stdout"
         if main_ext == "stdout":
             if paired:
                 args.append("--interleaved")
@@ -286,7 +290,8 @@ def check_mixed(sc, ctx):
     want = {"main": mx["main"], "short": mx["short"], "long": mx["long"]}
     for key, lst in got.items():
         ext = want[key]
-        exp_fmt = "fasta" if ext in (".fasta", ".fa") else "fastq"  # unknown names / stdout: the input format (FASTQ)
+        # unknown names / plain stdout: the input format (FASTQ); --fasta asks for FASTA on standard output only
+        exp_fmt = "fasta" if ext in (".fasta", ".fa", "stdout-fasta") else "fastq"
         for k, item in enumerate(lst):
             if item is None:
                 raise Violation(f"output of category {key} missing ({args})")
